@@ -967,6 +967,152 @@ func caseChild() {
 	out.Case(true, "cproc", mtag, H(mbytes), B(preUnchanged), I(int64(newCount)), I(int64(newOther)), B(len(after) == len(before)))
 }
 
+// ---------------------------------------------------------------- rotation under a changed mode
+
+// countSnap: the *.v1.count files under dir with their hashes
+func countSnap(dir string) map[string][32]byte {
+	res := map[string][32]byte{}
+	for k, v := range snapshot(dir) {
+		if strings.HasSuffix(k, ".v1.count") {
+			res[k] = v.sum
+		}
+	}
+	return res
+}
+
+// snapDiff: was an existing count file changed or removed, how many were created
+func snapDiff(a, b map[string][32]byte) (changed bool, created int) {
+	for k, v := range a {
+		if w, ok := b[k]; !ok || w != v {
+			changed = true
+		}
+	}
+	for k := range b {
+		if _, ok := a[k]; !ok {
+			created++
+		}
+	}
+	return
+}
+
+func genModeBytes(asof time.Time) []byte {
+	word := Pick(rnd, []string{"off", "off", "off", "local", "on", "on", "OFF", "of"})
+	switch rnd.Intn(8) {
+	case 0:
+		return []byte(word)
+	case 1:
+		return append([]byte(word), Pick(rnd, wsSeparators)...) // trailing white space only
+	case 2:
+		return append(append([]byte(word), Pick(rnd, wsSeparators)...), dateStr(asof)...) // not the bare word
+	case 3:
+		return []byte(" " + word + " " + dateStr(asof) + "\n")
+	default:
+		return []byte(word + " " + dateStr(asof))
+	}
+}
+
+// caseRotate: one long-running process (one file object of the real library):
+// rotate1 (the file is opened), increments, the mode file is rewritten, maybe
+// more increments, rotate1 again (the weekly timer) with the clock before or
+// past the file's end, increments.  Observed after each stage: count files
+// created / changed.
+func caseRotate() {
+	s := newScen()
+	defer func() { os.RemoveAll(s.dir) }()
+	s.ensureLocal()
+	now := genBaseTime()
+	var m1 []byte
+	switch rnd.Intn(10) {
+	case 0:
+		m1 = nil // no mode file: local
+	case 1:
+		m1 = genModeBytes(now) // any, incl. off from the start
+	case 2, 3:
+		m1 = []byte("local " + dateStr(now.AddDate(0, 0, -3)))
+	default:
+		m1 = []byte("on " + dateStr(now.AddDate(0, 0, -3)))
+	}
+	if m1 != nil {
+		s.writeMode(m1)
+	}
+	m1tag, m1bytes := modeState(s.dir)
+	telemetry.Default = telemetry.NewDir(s.dir)
+	cur := now
+	counter.CounterTime = func() time.Time { return cur }
+	f := counter.VerifNewFile()
+	f.SetBuildInfo(&debug.BuildInfo{GoVersion: "go1.23.5", Path: "example.com/cmd/daemon",
+		Main: debug.Module{Path: "example.com/cmd", Version: "v1.2.3"}})
+	s0 := countSnap(s.dir)
+	f.Rotate1()
+	c := f.NewCounter("vh/rot")
+	c.Add(int64(1 + rnd.Intn(3)))
+	s1 := countSnap(s.dir)
+	ch1, cr1 := snapDiff(s0, s1)
+	_, end := f.Span()
+
+	// the mode changes while the process lives
+	var m2 []byte
+	if rnd.Intn(4) == 0 {
+		word := Pick(rnd, []string{"off", "off", "local", "on"})
+		if err := telemetry.NewDir(s.dir).SetModeAsOf(word, now.Add(time.Hour)); err != nil {
+			panic(err)
+		}
+		out.Note("rot-mode-by-SetModeAsOf")
+	} else {
+		m2 = genModeBytes(now)
+		s.writeMode(m2)
+	}
+	m2tag, m2bytes := modeState(s.dir)
+	if m, _ := telemetry.NewDir(s.dir).Mode(); m == "off" {
+		out.Note("rot-mode-becomes-off")
+	} else {
+		out.Note("rot-mode-becomes-other")
+	}
+
+	preAdd := rnd.Intn(3) == 0
+	if preAdd {
+		c.Add(int64(1 + rnd.Intn(3)))
+		out.Note("rot-increment-between-off-and-rotation")
+	}
+	s2 := countSnap(s.dir)
+	ch2, cr2 := snapDiff(s1, s2)
+
+	expired := true
+	if end.IsZero() { // the first rotate1 failed (mode off from the start): no span
+		end = now.Add(3 * 24 * time.Hour)
+	}
+	switch rnd.Intn(6) {
+	case 0:
+		cur = end
+		out.Note("rot-clock-eq-end")
+	case 1:
+		cur = end.Add(time.Second)
+	case 2:
+		cur = end.Add(time.Duration(rnd.Int63n(int64(30 * 24 * time.Hour))))
+	case 3:
+		cur = end.Add(-time.Second)
+		expired = cur.UTC().Truncate(24*time.Hour) != now.UTC().Truncate(24*time.Hour)
+		out.Note("rot-clock-before-end")
+	case 4:
+		cur = now.Add(time.Minute)
+		expired = cur.UTC().Truncate(24*time.Hour) != now.UTC().Truncate(24*time.Hour)
+		out.Note("rot-clock-same-day")
+	default:
+		cur = end.Add(time.Duration(rnd.Intn(48)) * time.Hour)
+	}
+	f.Rotate1()
+	s3 := countSnap(s.dir)
+	ch3, cr3 := snapDiff(s2, s3)
+	c.Add(int64(1 + rnd.Intn(3)))
+	f.NewCounter("vh/after").Add(2)
+	s4 := countSnap(s.dir)
+	ch4, cr4 := snapDiff(s3, s4)
+	f.Close()
+	out.Note("rotation-case")
+	out.Case(true, "rot", m1tag, H(m1bytes), m2tag, H(m2bytes), B(preAdd), B(expired),
+		B(ch1), I(int64(cr1)), B(ch2), I(int64(cr2)), B(ch3), I(int64(cr3)), B(ch4), I(int64(cr4)))
+}
+
 func main() {
 	if os.Getenv("VH_CHILD") != "" {
 		childMain()
@@ -990,6 +1136,8 @@ func main() {
 			caseSentinel(i)
 		case i%40 == 7:
 			caseChild()
+		case i%8 == 3:
+			caseRotate()
 		default:
 			caseScenario()
 		}
